@@ -9,7 +9,7 @@ META = {
                    "R2 do_find walks the list front to back, one process_dir per element with that element's own string (WalkDir::new receives it unchanged: clauses shared with C07), the exit status is sticky (a later success cannot clear an earlier failure), the loop is left early only on -quit; "
                    "R3 isolation: an error yielded by the walker (a starting point that cannot be examined) sets a non-zero status, is diagnosed, and the walk and the remaining starting points continue (clause shared with C02); "
                    "R4 -files0-from: the bytes read are split on NUL only and not edited before the split; exactly one trailing empty field (final NUL) is dropped; empty names are diagnosed and removed; the remaining names are appended in order; the list replaces only the implicit '.', an explicit operand together with -files0-from is an error",
-    "decides": "order, spelling, count and isolation of starting points as far as find's own code handles them, and the shape of the -files0-from splitter",
+    "decides": "R3 also: a starting point is examined by the walk alone (no raw status call in process_dir/do_find/parse_args, no return of process_dir before the walk); R4: -files0-from names decided one by one, unusable names diagnosed and reflected in the exit status; order, spelling, count and isolation of starting points as far as find's own code handles them, and the shape of the -files0-from splitter",
     "does_not_decide": "walkdir's handling of a root it cannot open (trusted to yield an error item); names that are not valid UTF-8",
 }
 
